@@ -652,6 +652,8 @@ def cmp_values(op, a, b):
         return res
     from .sstr import SStr
 
+    if isinstance(a, SymEndText) or isinstance(b, SymEndText):
+        return cmp_endtext(op, a, b)
     if isinstance(a, (S.SDatetime,)) or isinstance(b, (S.SDatetime,)):
         return cmp_dt_text(op, a, b)
     if isinstance(a, str) and isinstance(b, str):
@@ -730,6 +732,7 @@ class Connection:
         self.committed = DATABASES[database] if self.shared else {}
         self.tables = {k: t.copy() for k, t in self.committed.items()}
         self.functions = {}
+        self.indexes = INDEXES.setdefault(database, {}) if database != ":memory:" else {}
         self.in_transaction = False
         self.row_factory = None
         self.text_factory = str
@@ -917,7 +920,7 @@ class Cursor:
                 if conn.isolation_level is None:
                     conn._commit()
         elif kind == "create_index":
-            pass
+            conn.indexes.setdefault(st[2], []).append(list(st[3]))
         elif kind == "drop":
             if st[1] == "TABLE":
                 if st[2] in conn.tables:
@@ -1068,7 +1071,7 @@ class Exec:
             raise Unsupported("aggregate %s(*) outside a select list" % name)
         vals = [self.ev(a, scopes) for a in args]
         if name in ("julianday", "strftime", "datetime", "date", "time", "unixepoch"):
-            return ("sqlfn", name, vals)
+            return date_function(name, vals)
         if name in self.conn.functions:
             return self.conn.functions[name](*vals)
         if name == "coalesce":
@@ -1160,7 +1163,7 @@ class Exec:
             # backward index scan in SQLite, so ties come out in descending rowid order (observed with
             # the real library by tools/dualrun.py; unspecified by SQL — violations are replayed on the
             # real library before they are reported)
-            if order[0][1]:
+            if order[0][1] and self.backward_index_scan(src, where, order):
                 idx = idx[::-1]
             res = []
             for i in idx:
@@ -1206,6 +1209,30 @@ class Exec:
             if sc is not None:
                 rows.append(row)
         return names, rows
+
+    def backward_index_scan(self, src, where, order):
+        """does an index (equality-filtered columns..., ORDER BY column) exist?  Then SQLite serves
+        ORDER BY col DESC by scanning it backwards (ties in descending rowid order); otherwise it
+        sorts the scan output with a stable sorter (ties in scan order)."""
+        if src is None or src[0] != "table" or order[0][0][0] != "col":
+            return False
+        ocol = order[0][0][2]
+        eqcols = []
+
+        def walk(e):
+            if e is None:
+                return
+            if e[0] == "and":
+                walk(e[1])
+                walk(e[2])
+            elif e[0] == "cmp" and e[1] == "=" and e[2][0] == "col":
+                eqcols.append(e[2][2])
+
+        walk(where)
+        for ix in self.conn.indexes.get(src[1], []):
+            if ix and ix[-1] == ocol and set(ix[:-1]) <= set(eqcols) and len(ix) > 1:
+                return True
+        return False
 
     # DML ---------------------------------------------------------------------
     def check_constraints(self, t, row, skip=None):
@@ -1311,13 +1338,124 @@ def concrete_int(v, what):
 
 
 def coerce(v, coldef):
-    """column affinity: numeric values stay numeric whatever the declared type; text stays text"""
+    """column affinity (https://sqlite.org/datatype3.html): INTEGER / REAL / NUMERIC columns turn text
+    that looks like a number into a number; numbers stay numbers everywhere except in TEXT columns,
+    where they are rendered as text.  Shadows are numeric and kept as they are."""
+    t = coldef["type"]
+    if "INT" in t:
+        aff = "INTEGER"
+    elif "CHAR" in t or "CLOB" in t or "TEXT" in t:
+        aff = "TEXT"
+    elif t == "" or "BLOB" in t:
+        aff = "BLOB"
+    elif "REAL" in t or "FLOA" in t or "DOUB" in t:
+        aff = "REAL"
+    else:
+        aff = "NUMERIC"
+    if aff in ("INTEGER", "REAL", "NUMERIC") and isinstance(v, str) and type(v) is str:
+        try:
+            f = float(v)
+        except ValueError:
+            return v
+        if f == int(f) and abs(f) < 2**63 and not any(c in v for c in "eE") or (f == int(f) and aff != "REAL"):
+            return int(f) if aff != "REAL" else f
+        return f
+    if aff == "TEXT" and type(v) in (int, float):
+        return repr(v) if isinstance(v, float) else str(v)
     return v
 
 
+_REAL_ENGINE = []
+
+
+def real_scalar(sql, params):
+    """evaluate a built-in SQL scalar function on concrete arguments with the real SQLite library"""
+    if not _REAL_ENGINE:
+        _REAL_ENGINE.append(_real.connect(":memory:"))
+    return _REAL_ENGINE[0].execute(sql, params).fetchone()[0]
+
+
+class SymJulian:
+    """julianday(<symbolic datetime text>) and the linear arithmetic peewee's date math applies to it:
+    value = scale * (julianday(dt) - 2440587.5 * [shifted]) + add   — tracked structurally"""
+
+    def __init__(self, dt, shifted=False, scaled=False, add=None):
+        self.dt, self.shifted, self.scaled, self.add = dt, shifted, scaled, add
+
+    def __sub__(self, o):
+        if not self.shifted and not self.scaled and o == 2440587.5:
+            return SymJulian(self.dt, True, False, None)
+        raise Unsupported("julianday arithmetic: - %r" % (o,))
+
+    def __mul__(self, o):
+        if self.shifted and not self.scaled and o in (86400.0, 86400):
+            return SymJulian(self.dt, True, True, None)
+        raise Unsupported("julianday arithmetic: * %r" % (o,))
+
+    def __add__(self, o):
+        if self.shifted and self.scaled and self.add is None and is_num(o):
+            return SymJulian(self.dt, True, True, o)
+        raise Unsupported("julianday arithmetic: + %r" % (o,))
+
+    __radd__ = __add__
+    __rmul__ = __mul__
+
+
+class SymEndText:
+    """strftime('%Y-%m-%d %H:%M:%f+00:00', unixepoch-seconds(dt) + duration, 'unixepoch'): the text of
+    the end instant rendered to the millisecond (C code in SQLite; contract: within 1 ms of dt + duration)"""
+
+    def __init__(self, dt, dur):
+        self.dt, self.dur = dt, dur
+
+
+def date_function(name, vals):
+    if all(v is None or type(v) in (int, float, str) for v in vals):
+        return real_scalar("SELECT %s(%s)" % (name, ",".join("?" * len(vals))), vals)
+    if name == "julianday" and len(vals) == 1 and isinstance(vals[0], S.SDatetime):
+        return SymJulian(vals[0])
+    if name == "strftime" and len(vals) == 3 and isinstance(vals[1], SymJulian) and vals[2] == "unixepoch" and vals[0] == "%Y-%m-%d %H:%M:%f+00:00":
+        j = vals[1]
+        if j.shifted and j.scaled:
+            return SymEndText(j.dt, j.add if j.add is not None else 0)
+    raise Unsupported("SQL date function %s%r" % (name, tuple(type(v).__name__ for v in vals)))
+
+
+def cmp_endtext(op, a, b):
+    """<param datetime text> <= strftime(end) (or mirrored).  Contract of the C date code plus text
+    comparison of differently formatted fractions: the answer is certain once the instants differ by
+    more than 1 ms, arbitrary inside that band."""
+    if isinstance(a, SymEndText):
+        flip = {"<": ">", "<=": ">=", ">": "<", ">=": "<=", "=": "=", "!=": "!="}
+        return cmp_endtext(flip[op], b, a)
+    if not isinstance(b, SymEndText) or not (isinstance(a, S.SDatetime) or hasattr(a, "utcoffset")):
+        raise Unsupported("comparison with rendered end text: %r %s %r" % (type(a), op, type(b)))
+    if op not in ("<=", "<", ">", ">="):
+        raise Unsupported("equality with rendered end text")
+    off = S._off_of(a)
+    if is_z3(off) or off != 0:
+        raise Unsupported("window edge not normalised to UTC compared with rendered end text")
+    start = S.dt_us(a)
+    pn, pd = num_parts(b.dur)
+    end = S.dt_us(b.dt) * pd + pn * 1000000  # microseconds * pd  (duration is in seconds)
+    start_s = start * pd
+    band = 1000 * pd
+    free = z3.Bool(E.ENG.fresh_name("strftime_edge"))
+    le = z3.If(end >= start_s + band, True, z3.If(end < start_s - band, False, free))  # a <= rendered(b)
+    if op in ("<=", "<"):
+        return le
+    return z3.Not(le)
+
+
 def arith(l, r, op):
-    if isinstance(l, tuple) or isinstance(r, tuple):
-        return ("sqlarith", op, l, r)
+    if isinstance(l, SymJulian) or isinstance(r, SymJulian):
+        if op == "+":
+            return l + r
+        if op == "-":
+            return l - r
+        if op == "*":
+            return l * r
+        raise Unsupported("julianday arithmetic %s" % op)
     if op == "+":
         return l + r
     if op == "-":
@@ -1336,9 +1474,11 @@ def connect(database=":memory:", *a, **kw):
 
 
 CONNECTIONS = []
+INDEXES = {}
 DATABASES = {}  # file path -> committed tables (shared between connections to the same file)
 
 
 def reset():
     CONNECTIONS.clear()
     DATABASES.clear()
+    INDEXES.clear()
